@@ -55,6 +55,22 @@ CLAIMED = {
 }
 
 PENDING_REASON = "check not built yet in this round (design in DESIGN.md §4); not claimed until it runs"
+SCHED_NOTE = ("Trusted: rustc/std, shuttle 0.9.3's model of Mutex/RwLock/atomics/thread/lazy_static (sequentially consistent; weak-memory effects of the few Relaxed failure orderings are out of reach), "
+              "the mechanical substitution table of sched/regen.sh (guarded by a residual-pattern scan, exit 2), the virtual clock hook H1, our Scheduler implementation. "
+              "Every violation is re-executed from its scripted schedule in a newly started process before it is reported. Sampling of schedules, not enumeration.")
+
+CLAIMED.update({
+ "C14": ("sched", "exploration",
+         "Controlled-scheduler simulation: 2-3 simulated threads build/exit entries on one fresh or existing resource while our own seeded scheduler (uniform, PCT-style, preemption-sparse) decides every interleaving of sentinel-core's lock/atomic operations and a clock task may roll the bucket over at any scheduling point; after join node identity, in-flight and window totals are compared with the per-thread sums. Failing executions are rewritten to default policy + explicit preemptions, minimised and replayed.",
+         "DESIGN.md §3.3, §4 C14", "deterministic simulation: controlled thread scheduler with seeded schedule search and replayable preemption lists", SCHED_NOTE),
+ "C15": ("sched", "exploration",
+         "Controlled-scheduler simulation of concurrent rule-management calls (all seven operation kinds, within and across families) with optional concurrent entries, callback listeners and callback generators; verdicts are the runtime's deadlock detection (blocked cycle or self re-lock), a step bound, absence of panics and a sequential health probe of all managers.",
+         "DESIGN.md §3.3, §4 C15", "deterministic simulation: controlled thread scheduler, deadlock verdict + bounded liveness + health probe", SCHED_NOTE),
+ "C16": ("sched", "exploration",
+         "Controlled-scheduler simulation of races around each breaker transition (S1-S4) with the clock frozen; a totally ordered log of listener callbacks and decisions is checked for valid state-machine paths, single winners, one probe per Half-Open phase and roll-back of rejected probes.",
+         "DESIGN.md §3.3, §4 C16", "deterministic simulation: controlled thread scheduler, history checks over a totally ordered event log", SCHED_NOTE),
+})
+
 NOT_APPLICABLE = {
  "C13": "pure function of (chain shape, order values, scripted slot results): no clock, schedule, fault or surviving state for a simulator to own (DESIGN.md §5)",
  "C18": "pure functions value <-> bytes; truncated documents are inputs, not faults at an instant; nothing for a scheduler, clock or fault injector to decide (DESIGN.md §5)",
